@@ -16,7 +16,7 @@ import base58
 import lib
 from lib import cbool, chex, cnat
 
-from c09 import ctext, oracle
+from c09 import ctext, embedded_prefix_payloads, oracle
 
 PROP = 'C10'
 IMPORTS = 'From PV Require Import Codec.Base58 Codec.Domain Proofs.Domain_proofs.'
@@ -136,7 +136,7 @@ def run(ctx: lib.Ctx) -> None:
     rows = {(r[0].decode(), r[3]): r for r in table}
     ctx.table('base58_encodings rows used by forge.py (tz1-4, KT1, txr1, sr1, edpk, sppk, p2pk, BLpk, sig*, Net): binary prefix lengths 3/4')
     ctx.rule = ('structured: every address kind x boundary digests (00.., ff.., first byte 00..04 with and without last byte 00, '
-                'second byte 00..04, ..00, random) x tz_only x entrypoints (default, names up to 31 chars, names containing %, '
+                'second byte 00..04, ..00, digests containing the kind\'s own Base58 binary prefix, random) x tz_only x entrypoints (default, names up to 31 chars, names containing %, '
                 'non-ASCII); every key kind and signature notation x boundary payloads; chain ids. observed through the forge/unforge '
                 'functions, through Type.from_micheline_value(v.to_micheline_value("optimized")) of the seven Michelson types, and '
                 'through blind_unpack; histories: one value object is compared / sorted / hashed / used as set element or dict key / converted in '
@@ -173,7 +173,7 @@ def run(ctx: lib.Ctx) -> None:
     def out_val(idx, payload, ep=b''):
         return f'(Ok ({cnat(idx)}, {chex(payload)}, {chex(ep) if ep else "nil"}))'
 
-    typed_share = ctx.n(0.2, 1.0)
+    typed_share = ctx.n(0.13, 1.0)
 
     def typed(op, k, fl, a, e, expect, what):
         tmeta_all.append(what)
@@ -222,7 +222,8 @@ def run(ctx: lib.Ctx) -> None:
     # ---------------------------------------------------------------- addresses and key hashes
     n_dig = ctx.n(7, 80)
     for ki, kind in enumerate(ADDR):
-        for h in corpus.get(kind, []) + digests(rng, 20, n_dig):
+        emb = embedded_prefix_payloads(rng, 20, rows[(kind, 20)][2])   # digests containing the kind's own Base58 binary prefix
+        for h in corpus.get(kind, []) + rng.sample(emb, ctx.n(3, len(emb))) + digests(rng, 20, n_dig):
             text = b58(kind, h)
             for tz_only in (False, True):
                 ok, d = lib.call(F.forge_address, text, tz_only)
@@ -298,7 +299,8 @@ def run(ctx: lib.Ctx) -> None:
 
     # ---------------------------------------------------------------- public keys
     for ki, (kind, n) in enumerate(KEYS):
-        for p in digests(rng, n, ctx.n(6, 60)):
+        emb = embedded_prefix_payloads(rng, n, rows[(kind, n)][2])
+        for p in rng.sample(emb, ctx.n(2, len(emb))) + digests(rng, n, ctx.n(6, 60)):
             text = b58(kind, p)
             ok, d = lib.call(F.forge_public_key, text)
             ctx.case(('forge_public_key', text), kind=f'forge_public_key:{kind}', sample={'forge_public_key': text, 'bytes': d.hex() if ok else repr(d)})
@@ -321,7 +323,8 @@ def run(ctx: lib.Ctx) -> None:
 
     # ---------------------------------------------------------------- signatures and chain ids
     for si, (kind, n) in enumerate(SIGS):
-        for p in digests(rng, n, ctx.n(4, 40)):
+        emb = embedded_prefix_payloads(rng, n, rows[(kind, n)][2])
+        for p in rng.sample(emb, ctx.n(2, len(emb))) + digests(rng, n, ctx.n(4, 40)):
             text = b58(kind, p)
             ok1, v = lib.call(D.SignatureType.from_value, text)
             ok2, m = lib.call(v.to_micheline_value, mode='optimized') if ok1 else (False, None)
@@ -340,7 +343,7 @@ def run(ctx: lib.Ctx) -> None:
                 report(f'a {n}-byte signature ({kind} notation) does not survive the optimized form',
                        {'value': text, 'optimized': m, 'read_back': w.value if ok3 else repr(w),
                         'repro': f'S=pytezos.michelson.types.SignatureType; S.from_micheline_value(S.from_value({text!r}).to_micheline_value(mode="optimized"))'})
-    for p in digests(rng, 4, ctx.n(8, 40)):
+    for p in embedded_prefix_payloads(rng, 4, rows[('Net', 4)][2]) + digests(rng, 4, ctx.n(8, 40)):
         text = b58('Net', p)
         ok1, v = lib.call(D.ChainIdType.from_value, text)
         ok2, m = lib.call(v.to_micheline_value, mode='optimized') if ok1 else (False, None)
